@@ -244,12 +244,15 @@ def trieInsert (f : Sched) (c : NC) (key : String) (h : Heap) : Except Err (NC √
 
 /-! ## sort.c -/
 
-/-- `muggle_merge_sort`: scratch array, sort, free -/
-def mergeSort (f : Sched) (h : Heap) : Except Err (Bool √ó Heap) :=
-  let (a, h) := alloc f h
-  if a = .null then .ok (false, h)
-  else do
-    let h ‚Üê free a h
-    pure (true, h)
+/-- `muggle_merge_sort(ptr, count, cmp)`: nothing to do for fewer than two elements; else scratch
+array, sort, free -/
+def mergeSort (f : Sched) (count : Nat) (h : Heap) : Except Err (Bool √ó Heap) :=
+  if count < 2 then .ok (true, h)
+  else
+    let (a, h) := alloc f h
+    if a = .null then .ok (false, h)
+    else do
+      let h ‚Üê free a h
+      pure (true, h)
 
 end MgModel.C18
